@@ -36,7 +36,8 @@ LEVEL_TEXT = ('static analysis: (D1) expect_flat_log2 and shift_sex_chroms, comp
               '_cmd_reference hands do_reference that sex, reference sex, PAR genome, switches and the target / antitarget files; (C19-D6) '
               'biweight_location and biweight_midvariance, interpreted on 11 literal vectors with exact rationals, equal an independent '
               "transcription of Tukey's formulas (majority-tied data included). (D12) no draw in fix / reference comes from a generator object "
-              'that outlives the call. Does not decide behaviour with corrections on, or sex inference accuracy.')
+              "that outlives the call. (LABELS) the names under which the X / Y bins are found follow the table's own naming style, whichever sex"
+              ' chromosomes it has (C15 rule). Does not decide behaviour with corrections on, or sex inference accuracy.')
 TECHNIQUE = ('abstract interpretation over chromosome classes x sex flags (symbolic noise terms); dominance; exact rational identities; role-'
              'flow; effect summaries; argparse model for the command-line glue; exact evaluation of the estimators against formula '
              'transcriptions')
